@@ -159,6 +159,24 @@ def run_stage_values(item):
     with quiet():
         m = build(dict(stages=stages, coupling=[('cont', i, i + 1) for i in range(len(stages) - 1)], parent=[('w2',)]))
         m.ocp.solver('ipopt')
+        m.ocp.set_initial(m.w2, 2 * m.pb)        # a guess on the PARENT that is an expression of the parent's parameter (value 2.25)
+    try:
+        with quiet():
+            m.ocp._transcribed
+            g_w2 = float(m.ocp.initial_value(m.ocp.value(m.w2)))
+            g_x = [float(v_) for v_ in np.atleast_1d(m.stage_builts[-1].stage.initial_value(m.stage_builts[-1].stage.sample(m.stage_builts[-1].xel[0], grid='control')[1]))]
+        if method == 'SS':
+            g_x = g_x[:1]             # later nodes are propagated, not guessed
+        if close(g_w2, 4.5) and all(close(v_, 2.0) for v_ in g_x):
+            proved.append('parent guess written in its parameter starts at 2*value; starting values readable through a sub-stage')
+        else:
+            viol.append({'property': PROP, 'key': 'parent-guess|%s' % method, 'label': 'set_initial(w2, 2*pb)', 'detail': 'w2 starts at %r (expected 4.5), x0 of the last stage read through stage.initial_value: %s (expected 2.0)' % (g_w2, g_x)})
+    except Exception as e_:
+        viol.append({'property': PROP, 'key': 'parent-guess-raises|%s' % method, 'label': 'set_initial(w2, 2*pb)', 'detail': 'transcribing / reading the starting point raised: %s' % str(e_).strip().splitlines()[-1][:200]})
+        return {'stats': {'unsat': 0, 'sat': 0, 'unknown': 0, 'queries': 0, 'solver_s': 0.0}, 'obligations': 1, 'discharged': 0, 'nontrivial': [], 'violations': viol, 'twins_ok': 0, 'twins_bad': 0, 'status': 'violation',
+                'shape': 'stage-values|%s|%d clones' % (method, ncl), 'sample': {'kind': 'stage-values', 'method': method}}
+    with quiet():
+        pass
 
     def seen(tag):
         with quiet():
@@ -176,6 +194,22 @@ def run_stage_values(item):
         m.stage_builts[0].stage.set_value(m.stage_builts[0].psym['a'], 6.5)
     want[0] = 6.5
     seen('one clone updated after the transcription')
+    # the PARENT's own parameter: value changed after the transcription, then a guess for the parent's variable (in that order)
+    def parent_sees(tag, want_pb):
+        with quiet():
+            m.ocp._transcribed
+            op_ = m.ocp._method.opti
+            got = float(op_.debug.value(m.ocp.value(m.pb), op_.initial()))
+        if close(got, want_pb):
+            proved.append('%s: the parent sees its own parameter value' % tag)
+        else:
+            viol.append({'property': PROP, 'key': 'parent-value|%s|%s' % (method, tag), 'label': 'parent parameter',
+                         'detail': 'the parent\'s parameter was last given the value %r, the NLP carries %r' % (want_pb, got)})
+    with quiet():
+        m.ocp.set_value(m.pb, 3.5)
+        m.ocp.set_initial(m.w, 0.25)
+    parent_sees('set_value then set_initial on the parent, after the transcription', 3.5)
+    seen('clones untouched by the parent update')
     with quiet():
         m.ocp.subject_to(m.w <= 50)          # an edit: the next query transcribes again
     seen('after a re-transcription')
